@@ -441,7 +441,7 @@ namespace xsv
                 for (auto& kv : st.maxima)
                 {
                     char b[64];
-                    snprintf(b, sizeof b, "%.6g", kv.second);
+                    snprintf(b, sizeof b, "%.6g", std::isfinite(kv.second) ? kv.second : 1e300);
                     s += (first ? "" : ",") + jstr(kv.first) + ":{\"v\":" + b + ",\"at\":" + jstr(st.argmax[kv.first]) + "}";
                     first = false;
                 }
